@@ -1,7 +1,7 @@
 """C11 -- shutdown signals reach every running unit, escalate to SIGKILL, nextest exits. Theorems in
 Properties/C11.v (unit side); end-to-end: real signals to a real nextest over the scripted puppet."""
 import json, os
-import vlib, e2e, units_e2e as U
+import vlib, e2e, units_e2e as U, gen_tie
 
 PROP = "C11"
 SIGS = ["INT", "TERM", "HUP", "QUIT"]
@@ -57,6 +57,10 @@ def run(tier, seed):
     vlib.gate_or_violation(chk, gate)
     if ok:
         gate = U.merge_gates(gate, U.life_gate(chk))
+    # DESIGN 11.7: these decision functions are regenerated from the Rust source and proved equal to the
+    # model's for all inputs; a failure is reported when the check finishes unless a stage below finds a
+    # concrete failing input
+    gen_tie.gate(chk, ['shutdown_terminate_method', 'to_request'], gate)
     try:
         rig = e2e.Rig()
     except RuntimeError as ex:
